@@ -48,6 +48,10 @@ def run(env, tier, seed, broken=None):
     for x in bnd:
         for y in [0.0, 1.0, 2.0, -1.0, 0.5, -0.5, 3.0, 1e3, -2.0, 0.3, float('inf'), float('nan'), 10.0]:
             numeric.append((POW, [x, y]))
+    for x, y in [(1e10, -31.0), (1e6, -53.0), (24068053371912.99, -23.0), (1e154, -2.0), (3.0, -640.0), (1e-10, 31.0), (2.0, -1074.0), (2.0, -1075.0), (10.0, 308.0), (10.0, -323.0), (1.0000001, 64.0), (-3.0, 63.0), (0.1, -9.0)]:
+        numeric.append((POW, [x, y]))
+    for _ in range(300 if tier == 'quick' else 20000):
+        numeric.append((POW, [10.0 ** rng.randint(3, 20) * rng.uniform(1, 9), float(-rng.randint(12, 64))]))
     for _ in range(500 if tier == 'quick' else 30000):
         numeric.append((POW, [rng.uniform(-50, 50), rng.choice([rng.uniform(-5, 5), float(rng.randint(-40, 40))])]))
     powops = []
@@ -60,7 +64,8 @@ def run(env, tier, seed, broken=None):
         cases.append({'id': cid, 'src': src})
     # min / max over permutations, list versus array forms
     mm = []
-    for xs in [[3, 1, 2], [1, 1, 0], [-0.0, 0.0], [5], [2, 7, 7, 1], [1e308, -1e308, 0], [0.1, 0.2, 0.30000000000000004]]:
+    for xs in [[0.30000000000000004, 0.3], [0.3, 0.30000000000000004, 0.1], [2.0 ** 52, 2.0 ** 52 + 1], [1e15, 1e15 + 0.125], [1.0, 1.0000000000000002],
+               [3, 1, 2], [1, 1, 0], [-0.0, 0.0], [5], [2, 7, 7, 1], [1e308, -1e308, 0], [0.1, 0.2, 0.30000000000000004]]:
         for perm in itertools.permutations(xs):
             for f in (MIN, MAX):
                 a = ', '.join(num_src(float(x)) for x in perm)
